@@ -347,18 +347,33 @@ def generate_moved(seed, tier, n=None, pcap=False):
 
 
 # ---------------------------------------------------------------------------------- capture (C19 stage 2)
+def drop_pcap_scenario(rng, sid, subset, reverse=False):
+    """writes of two or three segments each (so that two segments are in flight whenever the window allows)
+    through a scripted dropper on the writer's outgoing route, capture on"""
+    mss = rng.choice([100, 500, 1475])
+    if reverse: cfg = fixed_cfg(rng, drop_srv=set(subset), mtu=mss, slow=rng.random() < 0.5, nat=rng.random() < 0.3)
+    else: cfg = fixed_cfg(rng, drop_cli=set(x + 1 for x in subset), mtu=mss, slow=rng.random() < 0.5, nat=rng.random() < 0.3)
+    cfg.lines.append("pcap on")
+    P = Prog(rng)
+    c = connect(rng, P, cfg, 8000, "n0", "n1", sip="10.0.0.1")
+    w, wctx, r, rctx = (c["ss"], c["hacc"], c["cs"], c["hcon"]) if reverse else (c["cs"], c["hcon"], c["ss"], c["hacc"])
+    total = rng.choice([10, 12, 16]) * mss - rng.choice([0, 0, 1, mss // 2])
+    wend = writer(rng, P, w, wctx, 10, total, [2 * mss, 2 * mss, 3 * mss], bufs=(1, 1, 2))
+    reader(rng, P, r, rctx, 24, [65536, 4096], nb_p=0.1, at_p=0.0)
+    if rng.random() < 0.8: P.do(wend, "%s.close" % w)
+    return finish(sid, cfg, P)
+
+
 def generate_drop_pcap(seed, tier, n=None):
-    """the `drop` family with capture on: a scripted dropper on the writer's outgoing route drops a non-empty
-    subset of the first data segments, so retransmissions are certain (one record per retransmitted segment,
-    the sequence field advanced by the re-sent bytes)"""
+    """capture on + a scripted dropper on the writer's outgoing route: retransmissions are (almost) certain --
+    one record per retransmitted segment, the sequence field advanced by the re-sent bytes. The sender has no
+    retransmission timer: a drop that leaves nothing in flight ends the transfer (two segments are in flight
+    at first, one after a drop until the next ACK), so one segment is dropped, or two at least four ordinals
+    apart (retransmissions count as ordinals too)"""
     rng = random.Random(seed * 86028121 + 29)
     n = n or (40 if tier == "quick" else 1000)
-    subsets = [s for k in range(1, 5) for s in itertools.combinations(range(8), k)]
-    out = []
-    for i in range(n):
-        txt = drop_scenario(rng, "dp%d" % i, rng.choice(subsets), reverse=(i % 2 == 1))
-        out.append(txt.replace("\ndo ", "\npcap on\ndo ", 1))
-    return out
+    subsets = [(a,) for a in range(6)] + [(a, b) for a in range(4) for b in range(a + 4, 8)]
+    return [drop_pcap_scenario(rng, "dp%d" % i, rng.choice(subsets), reverse=(i % 2 == 1)) for i in range(n)]
 
 
 def reuse_pcap_scenario(rng, sid):
